@@ -108,21 +108,64 @@ def _first(md, H):
         return NotImplemented
     md.on(SX.by(None, "resize"), resize)
 
+    def clear(ex, st, fr, t, a):
+        d = ex.deref(a[0]) if len(a) == 1 else None
+        if isinstance(d, SX.Obj) and d.adt == "array":
+            d.fields.clear()
+            return SX.Obj(adt="()")
+        return NotImplemented
+    md.on(SX.by(None, "clear"), clear)
+
+    def extend_from_slice(ex, st, fr, t, a):
+        import copy
+        d = ex.deref(a[0]) if len(a) == 2 else None
+        src = ex.deref(a[1]) if len(a) == 2 else None
+        if isinstance(d, SX.Obj) and d.adt == "array" and isinstance(src, SX.Obj) and src.adt == "array":
+            k = len(d.fields)
+            for j, i in enumerate(sorted(src.fields)):
+                d.fields[k + j] = copy.deepcopy(src.fields[i])
+            return SX.Obj(adt="()")
+        return NotImplemented
+    md.on(SX.by(None, "extend_from_slice"), extend_from_slice)
+
 
 def _poly(nm, d):
     return SX.Obj(adt=DP, fields={0: SX.Obj(adt="array", fields={i: Q.var("%s%d" % (nm, i)) for i in range(d + 1)})})
 
 
-def _run(facts, fn, args):
+def _run(facts, fn, args, out=None):
+    """out = k: return the value behind the k-th (reference) argument after the call instead of the return value"""
     ex = SX.Engine(facts, "ws", c07_dft._models(_first), max_paths=8, max_depth=8, inline_limit=600, max_visits=100000)
     ex.strict_flow = True
     try:
-        paths = [p for p in ex.run(fn, args) if "panic" not in p.flags]
+        allp = ex.run(fn, args)
+        paths = [p for p in allp if "panic" not in p.flags and "unmodelled:panic" not in p.flags]
+        ex.last_all_panic = bool(allp) and all(("panic" in p.flags or "unmodelled:panic" in p.flags) and not (p.flags - {"panic", "unmodelled:panic", "diverge"}) for p in allp)
     except RecursionError:
         return None, "recursion limit"
+    if not paths and ex.last_all_panic:
+        return None, "panics"
     if len(paths) != 1 or paths[0].flags:
         return None, "not evaluable (%s)" % (sorted(paths[0].flags)[:4] if paths else "no path")
+    if out is not None:
+        return (ex.deref(paths[0].args.cell(out).v) if paths[0].args is not None else None), None
     return paths[0].ret, None
+
+
+def _strip(cs):
+    """coefficients modulo trailing constant zeros (canonical form is R-CANON's subject)"""
+    cs = list(cs)
+    while cs and cs[-1].is_poly() and cs[-1].n.is_const() and cs[-1].n.const_value() == 0:
+        cs.pop()
+    return cs
+
+
+def _poly_tz(nm, d, tz):
+    """degree-d operand followed by tz explicit zero coefficients (a non-canonical vector, reachable through DerefMut / coeffs)"""
+    p = _poly(nm, d)
+    for i in range(d + 1, d + 1 + tz):
+        p.fields[0].fields[i] = Q.const(0)
+    return p
 
 
 def _coeffs(ret):
@@ -133,7 +176,7 @@ def _coeffs(ret):
 
 
 def check_polyarith(res, facts):
-    rule = res.rule("R-POLYARITH", "DensePolynomial &a + &b, &a - &b, naive_mul and evaluate are the coefficient-level ring operations for small degrees, inputs in general position [polynomial-constant propagation over the MIR]", 0)
+    rule = res.rule("R-POLYARITH", "DensePolynomial &a + &b, &a - &b, a += &b, a -= &b, a += (f, &b), naive_mul and evaluate are the coefficient-level ring operations for small degrees, inputs in general position, zero polynomials and vectors with explicit trailing zeros included for the sums [polynomial-constant propagation over the MIR]", 0)
     fns = [f for f in facts.fns(unit="ws", crate="ark_poly") if f.kind != "Closure" and "::tests::" not in f.id]
     proved = set()
     a = lambda i, d: Q.var("a%d" % i) if i <= d else Q.const(0)
@@ -168,6 +211,59 @@ def check_polyarith(res, facts):
             rule.bad(key, verdict[1], cand[0].loc)
         else:
             rule.noverdict(key, "shape not modelled (%s)" % verdict[1], cand[0].loc)
+    # degenerate operand shapes of the same operators (zero polynomial = empty vector; explicit trailing zero coefficients),
+    # and the in-place twins; results compared modulo trailing constant zeros (canonical form is R-CANON's subject)
+    shapes = [(da, 0, db, 0) for da in range(-1, 3) for db in range(-1, 3) if da < 0 or db < 0]
+    shapes += [(da, 1, db, 0) for da in range(0, 2) for db in range(-1, 3)] + [(da, 0, db, 1) for da in range(-1, 3) for db in range(0, 2)]
+
+    def sweep(fn, mk_args, out, want_of, pairs):
+        for da, ta, db, tb in pairs:
+            ret, why = _run(facts, fn, mk_args(_poly_tz("a", da, ta), _poly_tz("b", db, tb)), out)
+            cs = _coeffs(ret) if ret is not None else None
+            if cs is None and why == "panics" and (ta or tb):
+                continue        # the operator refuses a non-canonical operand (degree() asserts canonical form): no statement
+            if cs is None:
+                return ("noverdict", "operands of degree %d (+%d zero coefficients) and %d (+%d): %s" % (da, ta, db, tb, why or "result not recovered"))
+            want = _strip([want_of(i, da, db) for i in range(max(da, db, -1) + 1)])
+            got = _strip(cs)
+            if len(got) != len(want) or any(not g.equals(w) for g, w in zip(got, want)):
+                return ("bad", "operands of degree %d (+%d explicit zero coefficients) and %d (+%d): the result has coefficients %s, expected %s"
+                        % (da, ta, db, tb, [str(c) for c in got][:6], [str(w) for w in want][:6]))
+        return None
+
+    def settle(key, verdict, okmsg, loc):
+        if verdict is None:
+            rule.ok(key, okmsg, loc)
+        elif verdict[0] == "bad":
+            rule.bad(key, verdict[1], loc)
+        else:
+            rule.noverdict(key, "shape not modelled (%s)" % verdict[1], loc)
+
+    for name, trait, sign in (("add", "core::ops::arith::Add", 1), ("sub", "core::ops::arith::Sub", -1)):
+        cand = byref2(name, trait)
+        if cand:
+            v = sweep(cand[0], lambda x, y: [SX.Ref(SX.Cell(x)), SX.Ref(SX.Cell(y))], None,
+                      lambda i, da, db, sign=sign: a(i, da) + (b(i, db) if sign > 0 else -b(i, db)), shapes)
+            settle("ark_poly|&Dense %s &Dense|degenerate operands" % ("+" if sign > 0 else "-"), v,
+                   "%d operand shapes with a zero polynomial or explicit trailing zero coefficients" % len(shapes), cand[0].loc)
+    allpairs = [(da, 0, db, 0) for da in range(-1, 3) for db in range(-1, 3)] + [s for s in shapes if s[1] or s[3]]
+    for name, trait, sign in (("add_assign", "core::ops::arith::AddAssign", 1), ("sub_assign", "core::ops::arith::SubAssign", -1)):
+        cand = [f for f in fns if f.name == name and f.trait_impl == trait and f.d["argc"] == 2 and f.local_ty(1).startswith("&mut") and DP in f.local_ty(1)
+                and f.local_ty(2).startswith("&") and DP in f.local_ty(2)]
+        key = "ark_poly|Dense %s= &Dense" % ("+" if sign > 0 else "-")
+        if not cand:
+            rule.bad(key, "anchor missing")
+            continue
+        v = sweep(cand[0], lambda x, y: [SX.Ref(SX.Cell(x)), SX.Ref(SX.Cell(y))], 1,
+                  lambda i, da, db, sign=sign: a(i, da) + (b(i, db) if sign > 0 else -b(i, db)), allpairs)
+        settle(key, v, "%d operand shapes (degrees -1..2, zero polynomials and explicit trailing zeros included): self becomes a %s b" % (len(allpairs), "+" if sign > 0 else "-"), cand[0].loc)
+    # self += (f, &other): the scaled in-place sum (absent anchor = no instance: the tuple form is optional API)
+    cand = [f for f in fns if f.name == "add_assign" and f.trait_impl == "core::ops::arith::AddAssign" and f.d["argc"] == 2 and DP in f.local_ty(1)
+            and f.local_ty(2).startswith("(") and DP in f.local_ty(2)]
+    if cand:
+        v = sweep(cand[0], lambda x, y: [SX.Ref(SX.Cell(x)), SX.Obj(adt="tuple", fields={0: Q.var("f"), 1: SX.Ref(SX.Cell(y))})], 1,
+                  lambda i, da, db: a(i, da) + Q.var("f") * b(i, db), allpairs)
+        settle("ark_poly|Dense += (f, &Dense)", v, "%d operand shapes: self becomes a + f b" % len(allpairs), cand[0].loc)
     # schoolbook product
     key = "ark_poly|Dense::naive_mul"
     cand = [f for f in fns if f.name == "naive_mul" and (f.self_head == DP or DP in f.id) and f.d["argc"] == 2]
